@@ -284,3 +284,40 @@ Definition extend (entries : list entry) (Narg : option nat) (dq : nat)
     end
   | _, _ => Raise ErrKey
   end end end end end end.
+
+(* ---------- numeric assembly of the cached control matrix / filter function ---------- *)
+From FF Require Import Model.Numeric.
+Section Assembly.
+Context {T B : Type} (Op : Ops T B).
+Notation Cc := (C (T:=T)).
+
+(* one input pulse: indices of its basis elements in the new basis, first row, number of rows,
+   sqrt(d_per_qubit^(N - |ind|)) and its control matrix *)
+Definition cmblock : Type := (list nat * nat * nat * T * Arr3 (T:=T))%type.
+Fixpoint find_block (bs : list cmblock) (a : nat) : option cmblock :=
+  match bs with
+  | [] => None
+  | ((bidx, row0, nn, sc, Bj) as b) :: r => if (row0 <=? a) && (a <? row0 + nn) then Some b else find_block r a
+  end.
+(* control_matrix = zeros; control_matrix[rows_j, basis_idx_j] = B_j * sqrt(scaling_j) *)
+Definition assemble_cm (nrows K no : nat) (bs : list cmblock) : Arr3 (T:=T) :=
+  a3build nrows K no (fun a k o =>
+    match find_block bs a with
+    | Some (bidx, row0, nn, sc, Bj) =>
+        if memb k bidx then cscal Op sc (a3get Op Bj (a - row0) (index_of k bidx) o) else c0 Op
+    | None => c0 Op
+    end).
+(* after fix 4150b87: filter_function = numeric.calculate_filter_function(control_matrix) *)
+Definition assemble_ff (nrows K no : nat) (bs : list cmblock) : Arr3 (T:=T) :=
+  filter_function Op nrows K no (assemble_cm nrows K no bs).
+(* the pinned code: only the diagonal blocks  filter_function[rows_j, rows_j] = F_j * scaling_j *)
+Definition prefix_ff (nrows no : nat) (bs : list (nat * nat * T * Arr3 (T:=T))) : Arr3 (T:=T) :=
+  a3build nrows nrows no (fun a b o =>
+    match find (fun x => let '(row0, nn, _, _) := x in (row0 <=? a) && (a <? row0 + nn) && (row0 <=? b) && (b <? row0 + nn)) bs with
+    | Some (row0, nn, sc2, Fj) => cscal Op sc2 (a3get Op Fj (a - row0) (b - row0) o)
+    | None => c0 Op
+    end).
+(* final re-sorting: control_matrix[n_sort_idx], filter_function[n_sort_idx[:,None], n_sort_idx[None,:]] *)
+Definition sort_rows (idx : list nat) (A : Arr3 (T:=T)) : Arr3 (T:=T) := sel [] A idx.
+Definition sort_rows_cols (idx : list nat) (A : Arr3 (T:=T)) : Arr3 (T:=T) := sel [] (map (fun row => sel [] row idx) A) idx.
+End Assembly.
